@@ -246,6 +246,30 @@ theorem etree_abs_text_selects_self (e : Node) (ip : List Nat) (s : Step) (ss : 
   simp only [evalText, parse_render_abs (s :: ss) hok]
   exact etree_paths_select_self e ip (s :: ss) h
 
+/-! ### documents produced by `get_document_node(replace=True)` (`fn:parse-xml-fragment`) -/
+
+/-- After the dummy `<document>` element `w` has been replaced by a document node, the path of
+every node below it is computed against the new root: it is the path it had *relative to* `w`
+(the children list is taken over unchanged), now read from the document node — no step for the
+dummy element, positions unchanged. -/
+theorem replace_dummy_paths (w : Node) (i : Nat) (is : List Nat) (sel : Sel) :
+    pathOf (replaceDummy w) ⟨i :: is, sel⟩ = pathOf w ⟨i :: is, sel⟩ :=
+  pathOfWith_kids sameKind (replaceDummy w) w (replaceDummy_kids w) i is sel
+
+/-- … and it selects exactly the node in the new document (several top-level elements and
+top-level text included: `replaceDummy w` is an arbitrary children list under a document node). -/
+theorem replace_dummy_selects_self (w : Node) (r : Ref) (steps : List Step) (hw : w.wf = true)
+    (hp : pathOf (replaceDummy w) r = some steps) : evalSteps (replaceDummy w) steps = [r] :=
+  path_selects_self (replaceDummy w) r steps (replaceDummy_wf w hw) hp
+
+/-- test on literals: `parse-xml-fragment('top<a/><a>u</a>')` -/
+example :
+    let w := Node.elem ⟨"", "document"⟩ [] [] [.text, .elem ⟨"", "a"⟩ [] [] [], .elem ⟨"", "a"⟩ [] [] [.text]]
+    pathOf (replaceDummy w) ⟨[2, 0], .self⟩ = some [.child ⟨"", "a"⟩ 2, .text 1] ∧
+    renderAbsC [.child ⟨"", "a"⟩ 2, .text 1] = "/Q{}a[2]/text()[1]".toList ∧
+    pathOf (replaceDummy w) ⟨[0], .self⟩ = some [.text 1] ∧
+    evalSteps (replaceDummy w) [.text 1] = [⟨[0], .self⟩] := by decide
+
 /-! ### known finding F14f: `node.path` in a fragment context
 
 For a tree rooted at a parent-less element `node.path` is `/Q{ns}root[1]/…` (pinned by
